@@ -168,6 +168,15 @@ inline void require_outcomes(const std::string& section, int n) { if (g_me < 0 &
     _exit(2);
 }
 
+// The current case left the process in a state that cannot be continued (deadlocked threads, ...).
+// Its failure must already have been recorded with fail(); the pool restarts the shard behind it.
+[[noreturn]] inline void abandon_case() {
+    fflush(stdout);
+    if (g_replaying) _exit(41);
+    if (g_recording && g_case_failed == 0) harness_error("abandon_case() without a recorded failure");
+    _exit(42);
+}
+
 // ---------------------------------------------------------------- init / finish
 inline void init(int argc, char** argv, const char* id) {
     g_start = now_s();
@@ -325,6 +334,11 @@ inline void run_pool(const std::string& name, int W,
             fprintf(stderr, "%s", err.c_str());
             emit("HARNESSERROR\tworker exit 2 in section " + name + ": " + sanitize(err.substr(0, 300)));
             pids[w] = 0; live--; continue;
+        }
+        if (WIFEXITED(st) && WEXITSTATUS(st) == 42) {      // abandon_case(): failure already recorded by the worker
+            if (++restarts[w] > 5000) { emit("INCOMPLETE\t" + name + "\ttoo many abandoned cases in one shard"); pids[w] = 0; live--; }
+            else spawn(w, true);
+            continue;
         }
         // died while executing the published case
         std::string err = read_file(td + fmt("/err.%d", w));
@@ -573,6 +587,9 @@ struct Radix {
 #ifdef VF_MAIN
 extern "C" const char* __asan_default_options() {
     return "quarantine_size_mb=4:detect_leaks=0:detect_stack_use_after_return=0:allocator_may_return_null=1:handle_abort=0:print_summary=0:max_malloc_fill_size=0:new_delete_type_mismatch=0:alloc_dealloc_mismatch=0";
+}
+extern "C" const char* __tsan_default_options() {
+    return "halt_on_error=1:exitcode=66:second_deadlock_stack=1";
 }
 extern "C" const char* __ubsan_default_options() {
     return "print_stacktrace=1:halt_on_error=1";
